@@ -558,6 +558,47 @@ func runC10(c *Check, a *Analysis) {
 			nd++
 		}
 	}
+	// the client's close request carries the close phase and asks for a bare acknowledgement
+	if cs := p.Fn("(*Conn).closeStream"); cs == nil {
+		c.Undecided("R-CLOSE-STREAM", "(*Conn).closeStream not found")
+	} else {
+		for _, w := range []struct {
+			field string
+			k     int64
+			why   string
+		}{{"Stream", 3, "the server does not recognise the request as a stream close: the server-side stream stays open and its handler blocked"}, {"NoResponse", 1, "the acknowledgement is not routed to the close arm of the reader: the Conn.streams entry is never removed (NumCalls stays non-zero, the connection is never reclaimed)"}} {
+			ok := false
+			eachInstrCtx(cs, func(in, at ssa.Instruction, res func(ssa.Value) ssa.Value) {
+				st, isSt := in.(*ssa.Store)
+				if !isSt {
+					return
+				}
+				fr, _, okf := fieldOfAddr(st.Addr)
+				if !okf || fr.Struct != "upgrade" || fr.Field != w.field {
+					return
+				}
+				if k, isK := constInt(res(st.Val)); isK && k == w.k {
+					for _, wr := range callsIn(cs, "(*Conn).write") {
+						if p.dominatesInstr(at, wr.(ssa.Instruction)) {
+							ok = true
+						}
+					}
+				}
+			})
+			c.Ob("R-CLOSE-STREAM", "(*Conn).closeStream#request carries "+w.field, cs.Pos(), ok, ifs(!ok, "closeStream sends its request without "+w.field+" set: "+w.why))
+		}
+	}
+	// stopping a stream is never confined to the edge on which the stream is nil
+	for _, fn := range p.Fns {
+		for _, sc2 := range callsIn(fn, "(*stream).stop", "(*stream).Close") {
+			recv := sc2.Common().Args[0]
+			onlyNil, _ := p.guardedBy(sc2.(ssa.Instruction), matchValueNil(p, recv))
+			if fr, _, isF := fieldOfLoad(p.canon(recv)); !onlyNil && isF {
+				onlyNil, _ = p.guardedBy(sc2.(ssa.Instruction), matchFieldNilAny(p, fr.Field))
+			}
+			c.Ob("R-CLOSE-STREAM", sc.key(fn, "stream stop/Close not on the nil edge"), p.InstrPos(sc2), !onlyNil, ifs(onlyNil, "the stream is stopped only on the edge on which it was tested nil: live streams are never stopped and their blocked readers never released"))
+		}
+	}
 	c.Ob("R-CLOSE-STREAM", "reader#delete(Conn.streams) on close ack", token.NoPos, nd > 0, ifs(nd == 0, "the client never removes a closed stream from Conn.streams: NumCalls stays non-zero and the connection is never reclaimed"))
 }
 
@@ -901,6 +942,12 @@ func ruleStreamQueue(c *Check, a *Analysis, rule string) {
 			}
 		}
 		c.Ob(rule, sc.key(rm, "pop in the same critical section"), p.InstrPos(in), popped, ifs(!popped, "the delivered event is not removed from the queue (events = events[1:]) in the critical section in which it was taken: it is delivered again, or two readers take the same one"))
+		// the taken event is decoded into the caller's message on every path
+		_, trU, okU := p.mustPass(rm, in, func(x ssa.Instruction) bool {
+			cc, ok := x.(*ssa.Call)
+			return ok && !cc.Common().IsInvoke() && cc.Common().StaticCallee() == nil && isLoadOf(p.canon(cc.Common().Value), "stream", "unmarshal")
+		})
+		c.Ob(rule, sc.key(rm, "taken event is decoded on every path"), p.InstrPos(in), okU, ifs(!okU, "a path from taking the event to the return does not decode it into the caller's message ("+p.lineTrail(trU)+"): the message is consumed and its content lost"))
 	})
 	if n == 0 {
 		c.Undecided(rule, "ReadMessage does not take an element of stream.events")
